@@ -134,3 +134,112 @@ def r4_unordered_samples(ctx):
 def run(ctx):
     ctx.guard("C13.R3", "guard conflicts", lambda: r3_guards(ctx))
     ctx.guard("C13.R4", "unordered samples", lambda: r4_unordered_samples(ctx))
+    ctx.guard("C13.R5", "recombination driver", lambda: r5_recombination_driver(ctx))
+
+
+# ------------------------------------------------------------------ R5: the recombination driver
+
+def r5_recombination_driver(ctx, rule="C13.R5"):
+    """K6 over populations of 0..5 parents and every assignment of {None, Single, Both} to the parent pairs:
+    the driver consumes exactly the top population and pushes one new population of unevaluated individuals
+    holding, pair by pair, both parents / the single child / both children, plus the unpaired last parent."""
+    import itertools
+    from absint import Interp, Sym, Agg, TOP, some, NONE, std_oracle, chain
+    from collmodel import coll_oracle, Vec, install, heap_get, load
+    F = ctx.facts
+    fn = F.fn("mahf::components::recombination::recombination")
+    IND = "mahf::problems::individual::Individual"
+    bad = []
+    n = 0
+    inl = lambda k: k.startswith("mahf::problems::individual::") or k.startswith("<mahf::problems::individual::") or k.startswith("mahf::population::") or "as mahf::population::" in k
+    for size in range(0, 6):
+        npairs = size // 2
+        for choice in itertools.product(("None", "Single", "Both"), repeat=npairs):
+            pop = tuple(Agg("adt", IND, "Individual", [Sym("s%d" % i), some(Sym("o%d" % i))]) for i in range(size))
+
+            def oracle(interp, env, f, args, t, bb, path, choice=choice):
+                k = f.get("key", "")
+                if k in ("mahf::state::State::populations_mut", "mahf::state::State::populations"):
+                    return Sym("populations")
+                if k == "mahf::state::State::random_mut":
+                    return Sym("rng")
+                if k == "mahf::state::common::Populations::pop":
+                    interp.mstate["pops"] = interp.mstate.get("pops", 0) + 1
+                    return Vec("pop")
+                if k == "mahf::state::common::Populations::push":
+                    interp.mstate["pushed"] = interp.mstate.get("pushed", ()) + (args[1],)
+                    return Agg("tuple", None, None, [])
+                if k == "mahf::components::recombination::Recombination::recombine":
+                    i = interp.mstate.get("pair", 0)
+                    interp.mstate["pair"] = i + 1
+                    p1, p2 = load(interp, env, args[1]), load(interp, env, args[2])
+                    tag = "%s+%s" % (getattr(p1, "tag", "?"), getattr(p2, "tag", "?"))
+                    c = choice[i] if i < len(choice) else "None"
+                    OP = "mahf::components::recombination::OptionalPair"
+                    if c == "None":
+                        return Agg("adt", OP, "None", [])
+                    if c == "Single":
+                        return Agg("adt", OP, "Single", [Sym("c1(%s)" % tag)])
+                    return Agg("adt", OP, "Both", [Agg("array", None, None, [Sym("c1(%s)" % tag), Sym("c2(%s)" % tag)])])
+                return TOP
+            it = install(Interp(fn.body, chain(oracle, coll_oracle, std_oracle), [Sym("component"), Sym("problem"), Sym("state")], facts=F, inline=inl, max_visits=12))
+            it.init_state = {"heap": {"pop": pop}, "next_vec": 0}
+            n += 1
+            want = []
+            for i in range(npairs):
+                tag = "s%d+s%d" % (2 * i, 2 * i + 1)
+                want += {"None": ["s%d" % (2 * i), "s%d" % (2 * i + 1)], "Single": ["c1(%s)" % tag], "Both": ["c1(%s)" % tag, "c2(%s)" % tag]}[choice[i]]
+            if size % 2:
+                want.append("s%d" % (size - 1))
+            for p in it.run():
+                if p.end != "return":
+                    bad.append((size, choice, "does not return (%s)" % p.end))
+                    continue
+                pushed = p.mstate.get("pushed", ())
+                if p.mstate.get("pops", 0) != 1 or len(pushed) != 1:
+                    bad.append((size, choice, "pops %d and pushes %d populations" % (p.mstate.get("pops", 0), len(pushed))))
+                    continue
+                v = pushed[0]
+                items = heap_get_path(p, v)
+                got = []
+                stale = False
+                for x in items:
+                    if isinstance(x, Agg) and x.name == IND:
+                        got.append(getattr(x.fields[0], "tag", "?"))
+                        if not (isinstance(x.fields[1], Agg) and x.fields[1].variant == "None"):
+                            stale = True
+                    else:
+                        got.append(repr(x))
+                if got != want:
+                    bad.append((size, choice, "produces %s; expected %s" % (got, want)))
+                elif stale:
+                    bad.append((size, choice, "produces offspring that still carry an objective value"))
+    ctx.check(not bad, rule, fn.key, "pairing-and-child-insertion",
+              "%s parents with pair outcomes %s: the driver %s" % (bad[0] if bad else ("", "", "")), detail="%d scenarios (sizes 0..5 x {None,Single,Both}^pairs)" % n, loc=fn.loc())
+    ctx.count("recombination_driver_scenarios", n)
+    # from_pair: Both keeps both, Single keeps the first
+    fp = F.fn("mahf::components::recombination::OptionalPair::from_pair")
+    badfp = []
+    for both in (True, False):
+        it = Interp(fp.body, chain(coll_oracle, std_oracle), [Agg("array", None, None, [Sym("a"), Sym("b")]), both], facts=F)
+        for p in it.run():
+            r = p.ret
+            okk = isinstance(r, Agg) and ((both and r.variant == "Both" and [getattr(x, "tag", None) for x in r.fields[0].fields] == ["a", "b"]) or (not both and r.variant == "Single" and getattr(r.fields[0], "tag", None) == "a"))
+            if p.end != "return" or not okk:
+                badfp.append((both, repr(r)))
+    ctx.check(not badfp, rule, fp.key, "insert-one-or-both", "from_pair(both=%s) yields %s" % (badfp[0] if badfp else ("", "")), loc=fp.loc())
+    # every Recombination component executes through the driver
+    impls = [f for f in F.all_fns if f.impl_trait == "mahf::components::recombination::Recombination" and f.name == "recombine"]
+    ctx.floor(rule, "Recombination implementations", len(impls), 4)
+    for f in impls:
+        ex = F.fn_opt("<%s as mahf::components::Component>::execute" % f.impl_self_adt)
+        r = ex.body.expr_of_local(0) if ex else None
+        good = ex is not None and r[0] == "call" and r[1] == "mahf::components::recombination::recombination" and len(list(ex.body.calls())) == 1
+        ctx.check(good, rule, f.impl_self_adt, "executes-through-driver", "execute() is not exactly recombination(self, problem, state)", loc=(ex or f).loc())
+
+
+def heap_get_path(p, v):
+    from collmodel import Vec
+    if isinstance(v, Vec):
+        return p.mstate.get("heap", {}).get(v.vid, ())
+    return ()
